@@ -426,6 +426,8 @@ theorem wf_openFile (s : Store) (root : Ino) (v : View) (vid : Nat) (p : Bytes) 
   dsimp only
   split
   · exact hwf
+  split
+  · exact hwf
   · split
     · next h1 =>
       have hne : (searchNode s v p .eval).err = .noent := by simpa using h1
